@@ -38,6 +38,11 @@ func OnNEP17Payment(from interop.Hash160, amount int, data any) {
 	contract.Call(storage.Get(ctx, "target").(interop.Hash160), storage.Get(ctx, "method").(string), contract.All, args...)
 }
 
+// OnNEP11Payment re-enters the armed contract when a non-fungible token arrives.
+func OnNEP11Payment(from interop.Hash160, amount int, tokenID []byte, data any) {
+	OnNEP17Payment(from, amount, data)
+}
+
 // Done returns how many times the probe re-entered.
 func Done() int {
 	d := storage.Get(storage.GetReadOnlyContext(), "done")
